@@ -67,6 +67,17 @@ def solve_text(text, timeout_ms, goal_index=None, tactic=None):
 
 
 def _worker(inq, outq):
+    import threading
+
+    parent = os.getppid()
+
+    def _watch():  # never outlive the check process (z3 ignores its own timeout inside some nlsat calls)
+        while True:
+            time.sleep(5)
+            if os.getppid() != parent:
+                os._exit(1)
+
+    threading.Thread(target=_watch, daemon=True).start()
     while True:
         job = inq.get()
         if job is None:
@@ -77,6 +88,17 @@ def _worker(inq, outq):
         except BaseException as ex:  # noqa
             res = {"status": "error", "reason": repr(ex), "trivial": False, "t": 0.0}
         outq.put((qid, res))
+
+
+MEM_CAP_MB = int(os.environ.get("VERIF_WORKER_MEM_MB", "2500"))
+
+
+def _rss_mb(pid):
+    try:
+        with open(f"/proc/{pid}/statm") as f:
+            return int(f.read().split()[1]) * (os.sysconf("SC_PAGE_SIZE") / 1048576.0)
+    except Exception:
+        return 0.0
 
 
 class Farm:
@@ -139,8 +161,12 @@ class Farm:
                         progress(done, total)
                     continue
                 hard = w["job"].get("timeout_s", 60) * 1.5 + 20
-                if time.time() - w["t0"] > hard or not w["p"].is_alive():
-                    results[w["job"]["id"]] = {"status": "timeout", "trivial": False, "t": time.time() - w["t0"], "reason": "hard deadline / worker died"}
+                over = False
+                if time.time() - w.get("tmem", 0) > 1.0:  # memory watchdog: nlsat can grow without bound on a hard query
+                    w["tmem"] = time.time()
+                    over = _rss_mb(w["p"].pid) > MEM_CAP_MB
+                if over or time.time() - w["t0"] > hard or not w["p"].is_alive():
+                    results[w["job"]["id"]] = {"status": "timeout", "trivial": False, "t": time.time() - w["t0"], "reason": f"memory cap {MEM_CAP_MB} MB" if over else "hard deadline / worker died"}
                     self.cpu += time.time() - w["t0"]
                     try:
                         w["p"].kill()
